@@ -113,6 +113,13 @@ func (r *runner) matchStruct(st reflect.Type, fs []*mfield, where string) *vrt.V
 			if v := r.matchStruct(sf.Type.Elem(), f.children, at); v != nil {
 				return v
 			}
+		case kStruct:
+			if sf.Type.Kind() != reflect.Struct {
+				return viol("leaf-type", "translated field %s has type %s, want struct", at, sf.Type)
+			}
+			if v := r.matchStruct(sf.Type, f.children, at); v != nil {
+				return v
+			}
 		case kSliceStruct:
 			if sf.Type.Kind() != reflect.Slice || sf.Type.Elem().Kind() != reflect.Struct {
 				return viol("leaf-type", "translated field %s has type %s, want slice of struct", at, sf.Type)
@@ -132,27 +139,64 @@ func (r *runner) forwardSliceStruct(v0 reflect.Value, f *mfield, rt reflect.Type
 	out := reflect.MakeSlice(rt, n, n)
 	want := reflect.MakeSlice(v0.Type(), n, n)
 	for i := 0; i < n; i++ {
-		src, dst, wdst := v0.Index(i), out.Index(i), want.Index(i)
-		wdst.Set(src)
-		for _, c := range f.children {
-			if c.kind != kLeaf {
-				return out, want, fmt.Errorf("unsupported nested struct inside slice element")
-			}
-			k, _ := r.md.m.key(c)
-			idx := fieldByKey(rt.Elem(), k, r.c.Chain.KeyTags)
-			if idx < 0 {
-				return out, want, fmt.Errorf("element field with key %q vanished", k)
-			}
-			sv := src.FieldByName(c.origin[len(c.origin)-1])
-			tv, w, err := forwardLeaf(sv, c, r.c.DupSets)
-			if err != nil {
-				return out, want, err
-			}
-			dst.Field(idx).Set(tv)
-			wdst.FieldByName(c.origin[len(c.origin)-1]).Set(w)
+		want.Index(i).Set(v0.Index(i))
+		if err := r.forwardElem(v0.Index(i), want.Index(i), out.Index(i), f.children); err != nil {
+			return out, want, err
 		}
 	}
 	return out, want, nil
+}
+
+// byPath follows Go field names from an element (through embedded and nested
+// structs by value).
+func byPath(v reflect.Value, path []string) reflect.Value {
+	for _, n := range path {
+		if v.Kind() != reflect.Struct {
+			return reflect.Value{}
+		}
+		v = v.FieldByName(n)
+		if !v.IsValid() {
+			return v
+		}
+	}
+	return v
+}
+
+// forwardElem fills dst (a translated element struct, or a nested struct by
+// value inside it) from the original element src; wroot is the expected
+// original element.  Every translated field is located by key; its source is
+// located by the Go-name path the model recorded.
+func (r *runner) forwardElem(src, wroot, dst reflect.Value, children []*mfield) error {
+	for _, c := range children {
+		k, _ := r.md.m.key(c)
+		idx := fieldByKey(dst.Type(), k, r.c.Chain.KeyTags)
+		if idx < 0 {
+			return fmt.Errorf("no field with key %q in element type %s", k, dst.Type())
+		}
+		switch c.kind {
+		case kStruct:
+			if dst.Field(idx).Kind() != reflect.Struct {
+				return fmt.Errorf("element field %q is not a struct", k)
+			}
+			if err := r.forwardElem(src, wroot, dst.Field(idx), c.children); err != nil {
+				return err
+			}
+		case kLeaf:
+			sv := byPath(src, c.origin)
+			if !sv.IsValid() {
+				return fmt.Errorf("element has no field %v", c.origin)
+			}
+			tv, w, err := forwardLeaf(sv, c, r.c.DupSets)
+			if err != nil {
+				return err
+			}
+			dst.Field(idx).Set(tv)
+			byPath(wroot, c.origin).Set(w)
+		default:
+			return fmt.Errorf("unsupported pointer / slice of structs inside a slice element")
+		}
+	}
+	return nil
 }
 
 // write sets the translated leaf tl of root (a value of the translated type)
@@ -262,6 +306,13 @@ func (r *runner) reverse(v reflect.Value) (out reflect.Value, err error, panicke
 // known defect class.
 func (r *runner) classify(filled map[string]bool, msg, fallback string) string {
 	ch := r.c.Chain
+	if ch.has("anonflatten") && strings.Contains(msg, "index out of range") {
+		for _, ol := range r.md.origins {
+			if filled[ol.path] && ol.otype.Kind() == reflect.Slice && embedsTrailingUnexported(ol.otype.Elem()) {
+				return keyTrailingUnexported
+			}
+		}
+	}
 	for _, ol := range r.md.origins {
 		// an unset pointer to a text-unmarshalable type (the leaf itself, or
 		// the other copy of an aliased leaf)
@@ -348,6 +399,21 @@ func containsSlice(t reflect.Type, depth int) bool {
 			if t.Field(i).IsExported() && containsSlice(t.Field(i).Type, depth+1) {
 				return true
 			}
+		}
+	}
+	return false
+}
+
+// embedsTrailingUnexported: struct type t embeds (by value) a struct whose
+// last field is unexported.
+func embedsTrailingUnexported(t reflect.Type) bool {
+	if t.Kind() != reflect.Struct {
+		return false
+	}
+	for i := 0; i < t.NumField(); i++ {
+		f := t.Field(i)
+		if f.Anonymous && f.Type.Kind() == reflect.Struct && f.Type.NumField() > 0 && !f.Type.Field(f.Type.NumField()-1).IsExported() {
+			return true
 		}
 	}
 	return false
@@ -475,6 +541,81 @@ func runC10(c Case) vrt.Verdict {
 	}
 	mark(md.t0)
 	scan(md.t0)
+	// embedded structs with several nested struct members; maps of a named
+	// empty struct; elements with embedded structs
+	multiEmb := map[string][]string{} // origin path of the embedded field -> origin paths of its nested struct members
+	namedUnitMap, elemEmbedded := false, false
+	var scan2 func(fs []*mfield)
+	scan2 = func(fs []*mfield) {
+		for _, f := range fs {
+			switch f.kind {
+			case kPStruct:
+				if f.anon {
+					var members []string
+					for _, ch := range f.children {
+						if ch.kind == kPStruct {
+							members = append(members, strings.Join(ch.origin, "."))
+						}
+					}
+					if len(members) >= 2 {
+						multiEmb[strings.Join(f.origin, ".")] = members
+					}
+				}
+				scan2(f.children)
+			case kSliceStruct:
+				for _, ch := range f.children {
+					if ch.kind == kStruct && ch.anon {
+						elemEmbedded = true
+					}
+				}
+			case kLeaf:
+				t := f.otype
+				for t.Kind() == reflect.Pointer {
+					t = t.Elem()
+				}
+				if t.Kind() == reflect.Map && t.Elem() != emptyT && t.Elem().Kind() == reflect.Struct && t.Elem().NumField() == 0 {
+					namedUnitMap = true
+				}
+			}
+		}
+	}
+	scan2(md.t0)
+	if len(multiEmb) > 0 {
+		labels = append(labels, "embedded-with-several-nested-structs")
+		if c.Chain.has("anonflatten") {
+			labels = append(labels, "anonflatten:several-struct-outputs")
+			for _, members := range multiEmb {
+				hit := map[int]bool{}
+				for _, fe := range c.Fill {
+					for i, mpath := range members {
+						if strings.HasPrefix(fe.Path, mpath+".") {
+							hit[i] = true
+						}
+					}
+				}
+				last := len(members) - 1
+				switch {
+				case len(hit) == 0:
+					labels = append(labels, "anonflatten:struct-outputs-none-filled")
+				case len(hit) == len(members):
+					labels = append(labels, "anonflatten:struct-outputs-all-filled")
+				case !hit[last]:
+					labels = append(labels, "anonflatten:struct-outputs-only-nonlast-filled")
+				default:
+					labels = append(labels, "anonflatten:struct-outputs-some-filled")
+				}
+			}
+		}
+	}
+	if namedUnitMap {
+		labels = append(labels, "map-of-named-empty-struct")
+		if c.Chain.has("setslice") {
+			labels = append(labels, "setslice:map-of-named-empty-struct-left-alone")
+		}
+	}
+	if elemEmbedded {
+		labels = append(labels, "slice-element-with-embedded-struct")
+	}
 	if nesting {
 		labels = append(labels, "nested")
 	}
@@ -560,7 +701,7 @@ func runC10(c Case) vrt.Verdict {
 }
 
 const c10Rule = "a config struct type from the full shape grammar (scalars, durations, text-unmarshalable and named types, slices, arrays, maps, sets, user pointers, nested / pointer / embedded structs incl. embedded types with tagged and aliased fields, slices of structs, skipped fields; depth<=3, <=8 fields per struct) with generated dials / alias / source-specific / format tags whose words are known by construction; T0 = Pointerify(T); " +
-	"%s; leaf types include maps whose KEY type is time.Duration (map[Duration]string, map[Duration][]int, map[Duration]Duration, map[Duration][]Duration, map[Duration]map[string]Duration, []map[Duration]int, *map[Duration]string, map[string]map[Duration]int), always filled with 1..3 entries, so that the Duration substitution has to translate and reverse map keys alone and together with values; a subset of the original leaves is written THROUGH their translated counterparts (values from seeds, converted forward by the model: set->slice, Duration->ParsingDuration, own text rendering for string casts, the type's own MarshalText for text-unmarshalers), for every aliased field through either the primary or the alias copy; in 3 of 4 cases every slice written into the translated value (top level, inside maps / pointers / arrays, inside elements of slices of structs) carries 1..3 elements of spare capacity holding junk, as append-grown decoder output does; with probability 3/8 a written leaf takes its EMPTY value instead of the seeded one -- the empty string for string leaves (through a string cast: a translated *string pointing to \"\", which must reverse to a non-nil pointer to \"\", not to an unset leaf) and a non-nil empty slice / map / set for collections (text \"\" through a string cast). " +
+	"%s; embeddable types include structs with 2..3 differently typed nested struct members by value and by pointer between scalar leaves (hoisting them gives one input field several struct-typed outputs; leaves are filled in none / only non-last / some / all of them) and structs with unexported fields in first, middle and last position; slices of structs include elements that embed structs by value with unexported fields in first and middle position and with nested struct members (elements are not pointerified; the element with an unexported field in LAST position is generated only with VERIF_C10_TRAILING_UNEXPORTED=1 while finding anonflatten-trailing-unexported is open); leaf types include maps of a NAMED empty struct (map[string]Unit, map[int]Unit, *map[string]Unit), which are not sets: the set->slice mangler leaves them alone and they reverse unchanged; leaf types include maps whose KEY type is time.Duration (map[Duration]string, map[Duration][]int, map[Duration]Duration, map[Duration][]Duration, map[Duration]map[string]Duration, []map[Duration]int, *map[Duration]string, map[string]map[Duration]int), always filled with 1..3 entries, so that the Duration substitution has to translate and reverse map keys alone and together with values; a subset of the original leaves is written THROUGH their translated counterparts (values from seeds, converted forward by the model: set->slice, Duration->ParsingDuration, own text rendering for string casts, the type's own MarshalText for text-unmarshalers), for every aliased field through either the primary or the alias copy; in 3 of 4 cases every slice written into the translated value (top level, inside maps / pointers / arrays, inside elements of slices of structs) carries 1..3 elements of spare capacity holding junk, as append-grown decoder output does; with probability 3/8 a written leaf takes its EMPTY value instead of the seeded one -- the empty string for string leaves (through a string cast: a translated *string pointing to \"\", which must reverse to a non-nil pointer to \"\", not to an unset leaf) and a non-nil empty slice / map / set for collections (text \"\" through a string cast). " +
 	"Oracle: a descriptor-level model of each mangler gives every translated field its documented key (flattened dials / dialsenv / dialsflag / dialspflag tag, json / yaml / toml tag or Go name per nesting level, alias value for alias copies), type and conversion; translated fields are located by that key only; required: TranslateType yields exactly the model's key set and leaf types at every level, the reverse-translated value has type T0, each written leaf holds the value converted back, every other leaf is nil, parent pointers are allocated iff a leaf below is set, and an all-empty translated value reverses to an all-nil T0. " +
 	"non-trivial = chain length >= 2 and the shape has nesting (or an aliased field before a nested one); distinct = distinct case JSON"
 
